@@ -12,6 +12,7 @@
 //!   e|<kind>|<elem>|<shape>|<strides>|<n>|<cap>|<axis>|<new_size>      has_capacity
 //!   o|<kind>|<shape>|<strides>|<idx>                                   Layout::offset
 //!   w|<kind>|<shape>|<strides>|<n>|<idx>                               weakly_checked_view()[idx]
+//!   a|nd|<shape>|<strides>|<n>|<base>|<dim>|<M>                        get_array::<M>(base, dim)
 //!
 //! The harness never dereferences an element of a tensor whose layout its own u128 oracle does
 //! not prove in bounds: for such (wrongly) accepted tensors only the acceptance is reported.
@@ -38,6 +39,7 @@ enum Out {
     CapNo,
     OffSome(usize),
     OffNone,
+    OffList(Vec<usize>),
 }
 
 impl Out {
@@ -45,6 +47,7 @@ impl Out {
         match self {
             Out::Accept(s, t) => format!("Accept {} {}", coq_list_n(s), coq_list_n(t)),
             Out::OffSome(o) => format!("OffSome {}", o),
+            Out::OffList(l) => format!("OffList {}", coq_list_n(l)),
             o => format!("{:?}", o),
         }
     }
@@ -61,6 +64,7 @@ impl Out {
             Out::CapNo => "capno",
             Out::OffSome(_) => "some",
             Out::OffNone => "none",
+            Out::OffList(_) => "list",
         }
     }
 }
@@ -88,7 +92,7 @@ fn guarded<T>(f: impl FnOnce() -> T) -> Result<T, Out> {
             let msg = LAST_PANIC.with(|p| p.borrow().clone());
             Err(if msg.contains("overflow") {
                 Out::PanicOverflow
-            } else if msg.contains("assertion failed") || msg.contains("does not match shape") {
+            } else if msg.contains("assertion failed") || msg.contains("does not match shape") || msg.contains("array indices invalid") {
                 Out::PanicAssert
             } else {
                 Out::PanicOther
@@ -500,6 +504,32 @@ fn weak_dyn<T: Elem>(shape: &[usize], strides: &[usize], n: usize, idx: &[usize]
     })
 }
 
+// ------------------------------------------------------------------ get_array
+fn array_nd<const N: usize, T>(shape: &[usize], strides: &[usize], n: usize, base: &[usize], dim: usize, m: usize) -> Option<Out> {
+    let _ = std::marker::PhantomData::<T>;
+    let sh: [usize; N] = shape.try_into().unwrap();
+    let st: [usize; N] = strides.try_into().unwrap();
+    let bs: [usize; N] = base.try_into().unwrap();
+    if !safe_layout(shape, strides, n) || n > (1 << 16) {
+        return None;
+    }
+    // the view covers data[..n]; the sentinel elements behind it make a small out-of-bounds
+    // read harmless and visible (value u32::MAX, never a legal offset)
+    let mut data: Vec<u32> = (0..n as u32).collect();
+    data.extend(std::iter::repeat(u32::MAX).take(256));
+    let t = guarded(|| NdTensorView::<u32, N>::from_slice_with_strides(sh, &data[..n], st)).ok()?.ok()?;
+    let r = match m {
+        1 => guarded(|| t.get_array::<1>(bs, dim).to_vec()),
+        2 => guarded(|| t.get_array::<2>(bs, dim).to_vec()),
+        3 => guarded(|| t.get_array::<3>(bs, dim).to_vec()),
+        _ => guarded(|| t.get_array::<4>(bs, dim).to_vec()),
+    };
+    Some(match r {
+        Ok(v) => Out::OffList(v.iter().map(|&x| x as usize).collect()),
+        Err(p) => p,
+    })
+}
+
 // ------------------------------------------------------------------ exec
 fn coq_probes(ps: &[(Vec<usize>, Out)]) -> String {
     let v: Vec<String> = ps.iter().map(|(i, o)| format!("({}, {})", coq_list_n(i), o.coq())).collect();
@@ -604,6 +634,19 @@ fn exec_line(line: &str, mode: &str) -> String {
             let q = format!("QWeak {} {} {} {}", coq_list_n(&shape), coq_list_n(&strides), coq_list_n(&idx), n);
             let tag = format!("weak-{}-{}", kind, out.tag());
             format!("{}\t{}\t{}", tag, line, case_term(mode, kind, &q, &out, &[], false))
+        }
+        "a" => {
+            let shape = parse_list(f[2]);
+            let strides = parse_list(f[3]);
+            let n: usize = f[4].parse().unwrap();
+            let base = parse_list(f[5]);
+            let dim: usize = f[6].parse().unwrap();
+            let m: usize = f[7].parse::<usize>().unwrap().clamp(1, 4);
+            let r = by_rank!(shape.len(), array_nd, (), &shape, &strides, n, &base, dim, m);
+            let Some(out) = r else { return skip_line(line, mode) };
+            let q = format!("QArray {} {} {} {} {}%nat {}%nat", coq_list_n(&shape), coq_list_n(&strides), n, coq_list_n(&base), dim, m);
+            let tag = format!("arr-nd-{}", out.tag());
+            format!("{}\t{}\t{}", tag, line, case_term(mode, "nd", &q, &out, &[], false))
         }
         _ => panic!("bad input line {}", line),
     }
@@ -935,6 +978,35 @@ fn generate(seed: u64, n: usize, tier: &str, out: &mut impl Write) {
                 let elem = if rng.chance(1, 5) { "z" } else { "u" };
                 for new in [cur, cur + 1, full[axis], full[axis] + 1, rng.pick(&BIG), (1usize << 62) + 1 + rng.below(3) as usize] {
                     writeln!(out, "e|{}|{}|{}|{}|{}|{}|{}|{}", kind, elem, fmt_list(&sh), fmt_list(&stp), m, cap, ax, new).unwrap();
+                }
+            }
+            19 => {
+                // get_array: M successive elements along one axis
+                if rank == 0 { continue; }
+                for d in 0..rank { if shape[d] == 0 { shape[d] = 3; } }
+                let mut st = contiguous_strides(&shape);
+                let mut sh = shape.clone();
+                if rng.chance(1, 3) && rank >= 2 {
+                    let j = rng.below(rank as u64) as usize;
+                    sh.swap(0, j);
+                    st.swap(0, j);
+                }
+                let mlen = exact_min_len(&sh, &st).unwrap();
+                for _ in 0..4 {
+                    let dim = if rng.chance(1, 10) { rank } else { rng.below(rank as u64) as usize };
+                    let m = 1 + rng.below(4) as usize;
+                    let mut base: Vec<usize> = sh.iter().map(|&s| rng.below(s as u64) as usize).collect();
+                    if dim < rank {
+                        match rng.below(6) {
+                            0 => base[dim] = sh[dim].saturating_sub(m),
+                            1 => base[dim] = (sh[dim] + 1).saturating_sub(m),
+                            2 => base[dim] = usize::MAX - m,
+                            3 => base[dim] = usize::MAX - m - 1,
+                            _ => {}
+                        }
+                    }
+                    if rng.chance(1, 10) { let e = rng.below(rank as u64) as usize; base[e] = sh[e]; }
+                    writeln!(out, "a|nd|{}|{}|{}|{}|{}|{}", fmt_list(&sh), fmt_list(&st), mlen, fmt_list(&base), dim, m).unwrap();
                 }
             }
             _ => {
